@@ -25,7 +25,7 @@ def floorNat (x : Rat) : Nat := x.floor.toNat
 def linspaceIdsWith (r : Rat → Rat) (n N : Nat) : List Nat :=
   if N = 0 then [] else if N = 1 then [0] else
   let step := r (((n - 1 : Nat) : Rat) / ((N - 1 : Nat) : Rat))
-  (List.range (N - 1)).map (fun k => floorNat (r ((k : Rat) * step))) ++ [n - 1]
+  (List.range (N - 1)).map (fun (k : Nat) => floorNat (r ((k : Rat) * step))) ++ [n - 1]
 
 /-- the ids evo computes: binary64 round-to-nearest-even -/
 def linspaceIds (n N : Nat) : List Nat := linspaceIdsWith F64.rne! n N
